@@ -42,10 +42,10 @@ SHARD_TIMEOUT = {'quick': 900, 'thorough': 3400}
 MIN_HITS = {
     'quick': {**{f'rounds:{s}': 16 for s in SYSTEMS}, **{f'cont:{s}': 12 for s in SYSTEMS},
               **{f'hidden:{s}': 6 for s in SYSTEMS}, 'mon:determinism': 400, 'mon:purity': 600, 'mon:serial': 700,
-              'mon:hidden': 100, 'mon:aggkey': 50, 'repeat-participation': 120, 'xproc': 6, 'xproc:agg_rotated': 1},
+              'mon:hidden': 100, 'mon:aggkey': 50, 'repeat-participation': 120, 'xproc': 6, 'xproc:agg_rotated': 1, 'history-without-jit': 4, 'nojit:apfl': 1, 'big-leaf-arithmetic': 1},
     'thorough': {**{f'rounds:{s}': 250 for s in SYSTEMS}, **{f'cont:{s}': 300 for s in SYSTEMS},
                  **{f'hidden:{s}': 150 for s in SYSTEMS}, 'mon:determinism': 6000, 'mon:purity': 9000, 'mon:serial': 10000,
-                 'mon:hidden': 1800, 'mon:aggkey': 800, 'repeat-participation': 2000, 'xproc': 30, 'xproc:agg_rotated': 3},
+                 'mon:hidden': 1800, 'mon:aggkey': 800, 'repeat-participation': 2000, 'xproc': 30, 'xproc:agg_rotated': 3, 'history-without-jit': 8, 'nojit:apfl': 2, 'big-leaf-arithmetic': 3},
 }
 EXHAUSTIVE = {'quick': False, 'thorough': False}
 TECHNIQUE = ('runtime monitoring: state sanitizer (deep container + leaf snapshots, deleted-buffer detection) + '
@@ -386,7 +386,8 @@ def run_history(ctx, jax, fedjax, case, tmpdir):
   init = toy.make_params(drng, case['dim'], 'flat' if is_agg or drng.rand() < 0.5 else 'nested')
   if is_agg:
     init = {'w': init['w'], 'b': np.reshape(init['b'], (1,))}   # no 0-d leaf: 0-d rotation is C18's finding A2
-  wit = {'system': sname, 'cfg': cfg, 'dim': case['dim'], 'sizes': case['sizes'], 'cohorts': case['cohorts']}
+  wit = {'system': sname, 'cfg': cfg, 'dim': case['dim'], 'sizes': case['sizes'], 'cohorts': case['cohorts'],
+         'jit_disabled': bool(case.get('nojit'))}
   entry = f'{sname}.apply'
 
   def guarded(what, fn, *a, w=None):
@@ -575,6 +576,20 @@ def run(ctx):
     xsys = ('agg_uniform', 'agg_rotated', 'agg_drive', 'agg_terngrad', 'fed_avg', 'hyp_cluster', 'apfl')
     if (j == 0 and system in xsys) if ctx.quick else (j < 3):
       case['xproc'] = 1 + (j + len(system)) % 7
+    if system == 'agg_uniform' and (j == 2 if ctx.quick else j in (5, 6, 7)):
+      # a parameter vector with more than 2**16 entries under the arithmetic-coding option (any size threshold in the bit
+      # accounting): the whole state, num_bits included, must still be a function of (state, inputs)
+      case['dim'] = int([70001, 131073, 65537][j % 3])
+      case['cfg']['encode'] = 'arithmetic'
+      ctx.count('big-leaf-arithmetic')
+    if system in ('apfl', 'fed_avg', 'mime_lite', 'hyp_cluster') and (j == 1 if ctx.quick else j in (3, 4)):
+      # the whole history with jit disabled (debugging configuration): buffers handed back to the caller are then the very
+      # objects the library computed with
+      ctx.count('history-without-jit')
+      ctx.count(f'nojit:{system}')
+      with jax.disable_jit():
+        run_history(ctx, jax, fedjax, dict(case, nojit=True), tmpdir)
+      continue
     run_history(ctx, jax, fedjax, case, tmpdir)
 
 
